@@ -85,6 +85,63 @@ def cres(f, call):
     return f"(Ok {f(v)})", "ok"
 
 
+def canon_arg(x):
+    """structural snapshot of an argument object (contents, types, dtypes, dict order)"""
+    if isinstance(x, np.ndarray):
+        return ("ndarray", str(x.dtype), x.shape, x.tobytes())
+    if isinstance(x, np.generic):
+        return ("npscalar", type(x).__name__, x.item())
+    if isinstance(x, dict):
+        return ("dict", [(canon_arg(k), canon_arg(v)) for k, v in x.items()])
+    if isinstance(x, (list, tuple)):
+        return (type(x).__name__, [canon_arg(v) for v in x])
+    if isinstance(x, slice):
+        return ("slice", canon_arg(x.start), canon_arg(x.stop), canon_arg(x.step))
+    return ("obj", repr(x))
+
+
+class ArgsChanged(Exception):
+    pass
+
+
+def frozen(what, call, **named):
+    """run call(); an operation must not modify its arguments: compare them with snapshots taken before"""
+    before = {k: canon_arg(v) for k, v in named.items()}
+    res = call()
+    for k, v in named.items():
+        if canon_arg(v) != before[k]:
+            shown = v.tolist() if isinstance(v, np.ndarray) else v
+            raise ArgsChanged(f"{what} modified its argument `{k}`: it now reads {core.short(shown, 200)}")
+    return res
+
+
+SEL_FORMS = ["list", "tuple", "int64", "int32", "argwhere", "readonly", "fortran"]
+
+
+def sel_in_form(sel, form):
+    """the tile selection `sel` (list of (r, c)) as the object a caller may pass"""
+    sel = [tuple(int(v) for v in s) for s in sel]
+    if form == "list":
+        return list(sel)
+    if form == "tuple":
+        return tuple(sel)
+    if form == "argwhere":      # what np.argwhere(mask) returns: the distinct cells in row-major order
+        mask = np.zeros((max(s[0] for s in sel) + 1, max(s[1] for s in sel) + 1), dtype=bool)
+        for r, c in sel:
+            mask[r, c] = True
+        return np.argwhere(mask)
+    a = np.array(sel, dtype="int32" if form == "int32" else "int64").reshape(-1, 2)
+    if form == "fortran":
+        a = np.asfortranarray(a)
+    if form == "readonly":
+        a.setflags(write=False)
+    return a
+
+
+def sel_as_list(x):
+    return [tuple(int(v) for v in s) for s in (x.tolist() if isinstance(x, np.ndarray) else x)]
+
+
 def index_forms(r, c, ints_only=False):
     """every form in which the API accepts the tile index / pixel (r, c): name -> object"""
     from odc.geo.types import Index2d, ixy_, iyx_, xy_, yx_
@@ -168,14 +225,16 @@ def axis_indices(S, rng, tier):
     return ints, sl
 
 
-def gen_tiles_cases(out, tier):
+def gen_tiles_cases(out, tier, judges=None):
     from odc.geo.geobox import GeoboxTiles
     from odc.geo.roi import clip_tiles
 
     rng = core.rng("c04-tiles")
     cases: list[str] = []
 
-    def add(kind, text, canon, nontrivial=True, sample=None):
+    def add(kind, text, canon, nontrivial=True, sample=None, judge=None):
+        if judge is not None and judges is not None:
+            judges[len(cases)] = judge
         cases.append(text)
         out.count(kind)
         out.case((kind, canon), nontrivial, sample)
@@ -218,9 +277,9 @@ def gen_tiles_cases(out, tier):
             t, kind = cres(croi, lambda: T[as_form(idx, fk)])
             add(f"get_int[{fname}]:" + kind, f"CGet {hb} {cidx(idx)} {t}", (key, idx), True,
                 {"op": "getitem", "base": list(base), "how": enc(how), "idx": list(idx), "form": fname, "result": t}
-                if k == 3 else None)
+                if k == 3 else None, judge=("index", base, how, idx))
             t, kind = cres(cpair, lambda: T.tile_shape(as_form(idx, fk + 1)).yx)
-            add("tile_shape:" + kind, f"CTileShape {hb} {cpair(idx)} {t}", (key, idx))
+            add("tile_shape:" + kind, f"CTileShape {hb} {cpair(idx)} {t}", (key, idx), judge=("index", base, how, idx))
             if tier != "quick" or k % 2 == 0:
                 t, kind = cres(lambda c: clist(tiles_desc(c)), lambda: T.crop(idx))   # crop is declared for ROI tuples only
                 add("crop_int:" + kind, f"CCrop {hb} {cidx(idx)} {t}", (key, idx))
@@ -229,15 +288,23 @@ def gen_tiles_cases(out, tier):
             t, kind = cres(cpair, lambda: G.chunk_shape(as_form(idx, fk + 3)).yx)
             add("g_chunk_shape:" + kind, f"CGChunkShape {hb} {cpair(idx)} {t}", (key, idx))
             t, kind = cres(lambda g: clist(gbox_desc(g, root)), lambda: G[as_form(idx, fk + 4)])
-            add(f"g_get[{FORM_NAMES[(fk + 4) % len(FORM_NAMES)]}]:" + kind, f"CGGet {hb} {cidx(idx)} {t}", (key, idx))
+            add(f"g_get[{FORM_NAMES[(fk + 4) % len(FORM_NAMES)]}]:" + kind, f"CGGet {hb} {cidx(idx)} {t}", (key, idx),
+                judge=("index_forms", base, how, idx) if min(idx) >= 0 else ("index", base, how, idx))
         for k, s in enumerate(sl):
             other = oth_sl[k % len(oth_sl)] if k % 2 else oth_ints[k % len(oth_ints)]
             idx = two(s, other)
             t, kind = cres(croi, lambda: T[idx])
-            add("get_slice:" + kind, f"CGet {hb} {cidx(idx)} {t}", (key, enc(idx)))
+            blk = None
+            if all(isinstance(v, slice) and isinstance(v.start, int) and isinstance(v.stop, int)
+                   and 0 <= v.start <= v.stop for v in idx):
+                blk = ((idx[0].start, idx[0].stop), (idx[1].start, idx[1].stop))
+            add("get_slice:" + kind, f"CGet {hb} {cidx(idx)} {t}", (key, enc(idx)),
+                judge=("block", base, how, blk) if blk else None)
             t, kind = cres(lambda c: clist(tiles_desc(c)), lambda: T.crop(idx))
             add("crop:" + kind, f"CCrop {hb} {cidx(idx)} {t}", (key, enc(idx)), True,
-                {"op": "crop", "base": list(base), "how": enc(how), "roi": enc(idx), "result": t} if k == 5 else None)
+                {"op": "crop", "base": list(base), "how": enc(how), "roi": enc(idx), "result": t} if k == 5 else None,
+                judge=("crop", base, how, blk) if blk and not light and blk[0][0] < blk[0][1] <= S[0]
+                and blk[1][0] < blk[1][1] <= S[1] else None)
             if not geo:
                 continue
             t, kind = cres(lambda g: clist(gbox_desc(g, root)), lambda: G[idx])
@@ -256,7 +323,7 @@ def gen_tiles_cases(out, tier):
             q = [0, B[o] - 1, B[o], -1][(p + 1) % 4] if p % 5 == 4 else rng.randint(0, max(0, B[o] - 1))
             pix = two(p, q)
             t, kind = cres(cpair, lambda: T.locate(as_form(pix, p + counter[0])))
-            add("locate:" + kind, f"CLocate {hb} {cpair(pix)} {t}", (key, pix))
+            add("locate:" + kind, f"CLocate {hb} {cpair(pix)} {t}", (key, pix), judge=("locate_roundtrip", base, how, pix))
         # clip: selections inside (and sometimes outside) the tile grid
         nsel = 3 if light else 8
         for k in range(nsel):
@@ -264,14 +331,19 @@ def gen_tiles_cases(out, tier):
             hi = [max(0, S[0] - 1 + (k == 5)), max(0, S[1] - 1 + (k == 6))]
             sel = [(rng.randint(0, hi[0]), rng.randint(0, hi[1])) for _ in range(m)] if k != 7 else []
             f = lambda v: ctuple(ctuple(clist(tiles_desc(v[0])), croi(v[1])), clist(v[2], cpair))
-            t, kind = cres(f, lambda: clip_tiles(T, sel))
+            sform = SEL_FORMS[(k + counter[0]) % len(SEL_FORMS)] if sel else "list"
+            sel_arg = sel_in_form(sel, sform) if sform != "argwhere" else np.array(sel, dtype="int64").reshape(-1, 2)
+            cjudge = ("clip", base, how, sel, sform) if sel and not light and all(
+                0 <= r < S[0] and 0 <= c < S[1] for r, c in sel) else None
+            t, kind = cres(f, lambda: clip_tiles(T, sel_arg))
             add("clip:" + kind, f"CClip {hb} {clist(sel, cpair)} {t}", (key, tuple(sel)), True,
-                {"op": "clip_tiles", "base": list(base), "how": enc(how), "selection": sel, "result": t} if k == 1 else None)
+                {"op": "clip_tiles", "base": list(base), "how": enc(how), "selection": sel, "form": sform, "result": t}
+                if k == 1 else None, judge=cjudge)
             if light:      # offsets beyond 2**53 are not exact in the float affine of a GeoBox
                 continue
             g = lambda v: ctuple(ctuple(clist(gbox_desc(v[0].base, root)), clist(tiles_desc(v[0].roi))), clist(v[1], cpair))
-            t, kind = cres(g, lambda: G.clip(sel))
-            add("g_clip:" + kind, f"CGClip {hb} {clist(sel, cpair)} {t}", (key, tuple(sel)))
+            t, kind = cres(g, lambda: G.clip(sel_arg))     # the same selection object a second time
+            add("g_clip:" + kind, f"CGClip {hb} {clist(sel, cpair)} {t}", (key, tuple(sel)), judge=cjudge)
 
     # regular tilings: exhaustive on one axis
     nmax = 6 if tier == "quick" else 10
@@ -448,14 +520,16 @@ def cblocks(bl) -> str:
     return "[" + "; ".join(ctuple(cpair(k), clist(sh)) for k, sh in bl) + "]"
 
 
-def gen_block_cases(out, tier):
+def gen_block_cases(out, tier, judges=None):
     from odc.geo._blocks import BlockAssembler
     from odc.geo.roi import roi_shape
 
     rng = core.rng("c04-blocks")
     cases: list[str] = []
 
-    def add(kind, text, canon, nontrivial=True, sample=None):
+    def add(kind, text, canon, nontrivial=True, sample=None, judge=None):
+        if judge is not None and judges is not None:
+            judges[len(cases)] = judge
         cases.append(text)
         out.count(kind)
         out.case((kind, canon), nontrivial, sample)
@@ -583,7 +657,8 @@ def gen_block_cases(out, tier):
                     f"{croi(w)} {cz(fill)} (Ok {clist(flat)})")
             add("ba_extract:" + mode, text, (chy, chx, tuple(present), tuple(es), tuple(esh), enc(w), fill), bool(flat),
                 {"op": "BlockAssembler.extract", "chunks": [chy, chx], "present": present, "roi": enc(roi),
-                 "fill": fill, "result_head": flat[:12]} if vi < 2 else None)
+                 "fill": fill, "result_head": flat[:12]} if vi < 2 else None,
+                judge=("assembler", (chy, chx), pre, post, present, "int64", fill, roi, vi))
     return cases
 
 
@@ -732,6 +807,56 @@ def p_index_forms(base, how, rc):
     return True, f"tile {(r, c)} = rows {want[:2]} cols {want[2:]}"
 
 
+def p_no_mutation(base, how, block, sel, form):
+    """no operation modifies its arguments (chunk lists, selections, windows) or the tiling it is called on, and
+    repeating a call gives the same answer"""
+    from odc.geo.geobox import GeoboxTiles
+    from odc.geo.roi import clip_tiles
+    var = isinstance(how[0], (tuple, list))
+    how_m = [list(h) for h in how] if var else list(how)          # mutable spellings of the arguments
+    base_m = list(base)
+    (a, b), (c, d) = block
+    roi = (slice(a, b), slice(c, d))
+    arg = sel_in_form(sel, form)
+    try:
+        T = frozen("roi_tiles", lambda: mk_tiles(base_m, how_m), shape=base_m, how=how_m)
+        desc0 = tiles_desc(T)
+        first = None
+        for rep in (1, 2):
+            got = [
+                canon_arg(frozen("tiles[roi]", lambda: T[roi], roi=roi)),
+                tiles_desc(frozen("tiles.crop", lambda: T.crop(roi), roi=roi)),
+                canon_arg(T.chunks), tuple(T.shape.yx), tuple(T.base.yx),
+                canon_arg(frozen("tile_shape", lambda: tuple(T.tile_shape((a, c)).yx))),
+                canon_arg(tuple(int(v) for v in T.locate((T[a, c][0].start, T[a, c][1].start)))),
+            ]
+            Cc, r_, n_ = frozen("clip_tiles", lambda: clip_tiles(T, arg), selection=arg)
+            got += [tiles_desc(Cc), canon_arg(r_), sel_as_list(n_)]
+            if tiles_desc(T) != desc0:
+                return False, f"the tiling changed state after lookup/crop/clip calls: {desc0} -> {tiles_desc(T)}"
+            if canon_arg((base_m, how_m)) != canon_arg((list(base), [list(h) for h in how] if var else list(how))):
+                return False, f"constructor arguments modified: shape {base_m}, how {how_m}"
+            if first is None:
+                first = got
+            elif got != first:
+                k = [i for i, (x, y) in enumerate(zip(first, got)) if x != y][0]
+                return False, f"the same calls repeated on the same tiling give a different answer (item {k}): {got[k]} vs {first[k]}"
+        root = mk_root(T.base.yx)
+        G = frozen("GeoboxTiles", lambda: GeoboxTiles(root, how_m), how=how_m)
+        g1 = frozen("GeoboxTiles.crop", lambda: G.crop[roi], roi=roi)
+        c1 = frozen("GeoboxTiles.clip", lambda: G.clip(arg), selection=arg)
+        c2 = frozen("GeoboxTiles.clip (second call)", lambda: G.clip(arg), selection=arg)
+        if (tiles_desc(c1[0].roi), gbox_desc(c1[0].base, root), sel_as_list(c1[1])) != \
+                (tiles_desc(c2[0].roi), gbox_desc(c2[0].base, root), sel_as_list(c2[1])):
+            return False, f"GeoboxTiles.clip of the same selection {sel_as_list(arg)} twice gives different results"
+        if tiles_desc(G.roi) != tiles_desc(mk_tiles(tuple(base), how)) or gbox_desc(G.base, root) != [0, 0, *T.base.yx]:
+            return False, "GeoboxTiles changed state after crop/clip"
+        del g1
+    except ArgsChanged as e:
+        return False, str(e)
+    return True, "arguments and tilings unchanged"
+
+
 def p_block(base, how, block):
     """tiles[a:b, c:d] is the union of the selected tiles; a selection reaching beyond the grid raises IndexError"""
     (a, b), (c, d) = block
@@ -803,25 +928,48 @@ def p_crop(base, how, block):
     return ok, why or f"crop{block} ok"
 
 
-def p_clip(base, how, sel):
+def p_clip(base, how, sel, form="list"):
+    """clip to a selection = crop to its bounding block with re-based indices; the selection may be a list, a tuple
+    or an integer ndarray (np.argwhere output, int32/int64, read-only); it is not modified, and using the same
+    selection object again (second clip, second tiling, GeoboxTiles.clip) gives the same answer"""
     from odc.geo.geobox import GeoboxTiles
     from odc.geo.roi import clip_tiles
     T = mk_tiles(tuple(base), how)
-    sel = [tuple(s) for s in sel]
-    C, roi, new = clip_tiles(T, sel)
-    r0, c0 = roi[0].start, roi[1].start
-    whole = T[roi]
-    oy, ox = whole[0].start, whole[1].start
+    arg = sel_in_form(sel, form)
+    sel = sel_as_list(arg)                      # pristine copy: what the caller asked for
+    want_roi = (min(s[0] for s in sel), max(s[0] for s in sel) + 1, min(s[1] for s in sel), max(s[1] for s in sel) + 1)
+    r0, c0 = want_roi[0], want_roi[2]
+    desc0 = tiles_desc(T)
+    try:
+        C, roi, new = frozen("clip_tiles", lambda: clip_tiles(T, arg), selection=arg)
+        C2, roi2, new2 = frozen("clip_tiles (second call)", lambda: clip_tiles(T, arg), selection=arg)
+        T2 = mk_tiles(tuple(base), how)
+        C3, roi3, new3 = frozen("clip_tiles (second tiling)", lambda: clip_tiles(T2, arg), selection=arg)
+    except ArgsChanged as e:
+        return False, f"selection {sel} given as {form}: {e}"
+    if tiles_desc(T) != desc0:
+        return False, "clip_tiles changed the tiling it was applied to"
+    new = sel_as_list(new)
+    if (roi[0].start, roi[0].stop, roi[1].start, roi[1].stop) != want_roi:
+        return False, f"roi {roi} is not the bounding block of {sel} (given as {form})"
+    for what, (Cn, roin, newn) in (("second call", (C2, roi2, new2)), ("second tiling", (C3, roi3, new3))):
+        if canon_arg((roin, sel_as_list(newn), tiles_desc(Cn))) != canon_arg((roi, new, tiles_desc(C))):
+            return False, (f"the same selection {sel} (given as {form}) clipped again ({what}) gives roi {roin}, "
+                           f"indices {sel_as_list(newn)} instead of {roi}, {new}")
     if len(new) != len(sel):
         return False, "selection length changed"
-    if (roi[0].start, roi[0].stop - 1) != (min(s[0] for s in sel), max(s[0] for s in sel)) or \
-            (roi[1].start, roi[1].stop - 1) != (min(s[1] for s in sel), max(s[1] for s in sel)):
-        return False, f"roi {roi} is not the bounding block of {sel}"
+    whole = T[roi]
+    oy, ox = whole[0].start, whole[1].start
     root = mk_root(T.base.yx)
     G = GeoboxTiles(root, how)
-    GC, gnew = G.clip(sel)
-    if list(gnew) != list(new):
-        return False, f"GeoboxTiles.clip indices {gnew} != clip_tiles indices {new}"
+    try:
+        GC, gnew = frozen("GeoboxTiles.clip", lambda: G.clip(arg), selection=arg)
+    except ArgsChanged as e:
+        return False, f"selection {sel} given as {form}: {e}"
+    if sel_as_list(gnew) != new:
+        return False, f"GeoboxTiles.clip indices {sel_as_list(gnew)} != clip_tiles indices {new} for {sel} (given as {form})"
+    if gbox_desc(GC.base, root) != [oy, ox, whole[0].stop - oy, whole[1].stop - ox]:
+        return False, f"GeoboxTiles.clip of {sel}: base sits at {gbox_desc(GC.base, root)}, block region is {whole}"
     for (r, c), (i, j) in zip(sel, new):
         if (i, j) != (r - r0, c - c0):
             return False, f"index {(r, c)} re-based to {(i, j)} with block origin {(r0, c0)}"
@@ -914,14 +1062,27 @@ def p_assembler(chunks, pre, post, present, dtype, fill, roi, seed):
         sh = (*pre, chy[k[0]], chx[k[1]], *post)
         blocks[k] = (r.randint(1, 100, size=sh)).astype(dtype)
     axis = len(pre)
-    ba = BlockAssembler(blocks, (chy, chx), axis=axis)
-    if blocks and ba.shape != (*pre, sum(chy), sum(chx), *post):
-        return False, f"shape {ba.shape}"
+    chunks_m = [list(chy), list(chx)]              # the arguments in mutable spellings: none may be modified
     odt = dtype if blocks else "float32"
     fillv = np.dtype(odt).type(fill)
     ref = build_mosaic((chy, chx), pre if blocks else (), post if blocks else (), blocks, fillv, odt)
+    try:
+        ba = frozen("BlockAssembler()", lambda: BlockAssembler(blocks, chunks_m, axis=axis), blocks=blocks, chunks=chunks_m)
+        got = frozen("BlockAssembler.extract", lambda: ba.extract(fillv, roi=roi, dtype=odt), blocks=blocks,
+                     chunks=chunks_m, roi=roi)
+        again = frozen("BlockAssembler.extract", lambda: ba.extract(fillv, roi=roi, dtype=odt), blocks=blocks, roi=roi)
+    except ArgsChanged as e:
+        return False, str(e)
+    if blocks and ba.shape != (*pre, sum(chy), sum(chx), *post):
+        return False, f"shape {ba.shape}"
+    if canon_arg(again) != canon_arg(got):
+        return False, f"extract(roi={roi}) called twice on the same assembler gives different arrays"
+    snap = canon_arg(blocks)
+    got[...] = fillv                     # the result is the caller's: writing to it must not reach the blocks
+    if canon_arg(blocks) != snap or canon_arg(ba.extract(fillv, roi=roi, dtype=odt)) != canon_arg(again):
+        return False, "writing into the array returned by extract changed what the assembler returns next"
+    got = again
     nroi = ref_roi(roi, ref.shape, axis if blocks else 0)
-    got = ba.extract(fillv, roi=roi, dtype=odt)
     want = ref[nroi] if roi is not None else ref
     if got.shape != want.shape or got.dtype != want.dtype or not np.array_equal(got, want):
         where = ""
@@ -995,12 +1156,11 @@ def p_assembler_mixed(chunks, pre, post, order, fill, roi, seed):
     return True, f"dtype={want_dt} shape={got.shape}"
 
 
-PREDICATES = {"assembler_mixed": p_assembler_mixed, "index_forms": p_index_forms, "partition": p_partition, "index": p_index, "block": p_block, "locate_roundtrip": p_locate_roundtrip, "crop": p_crop,
+PREDICATES = {"no_mutation": p_no_mutation, "assembler_mixed": p_assembler_mixed, "index_forms": p_index_forms, "partition": p_partition, "index": p_index, "block": p_block, "locate_roundtrip": p_locate_roundtrip, "crop": p_crop,
               "clip": p_clip, "geoboxtiles": p_geoboxtiles, "assembler": p_assembler}
 
 
-def search(out, tier):
-    rng = core.rng("c04-search")
+def make_runner(out):
     found = {}
 
     def run(name, *args):
@@ -1014,6 +1174,13 @@ def search(out, tier):
             found[name] = True
             out.violation(f"c04:{name}", f"{name}{enc(args)}: {detail}",
                           {"predicate": name, "args": enc(list(args)), "observed": detail})
+        return ok
+
+    return run
+
+
+def search(out, tier, run):
+    rng = core.rng("c04-search")
 
     for rp in core.corpus(ID):
         run(rp["predicate"], *[dec(a) for a in rp["args"]])
@@ -1058,9 +1225,14 @@ def search(out, tier):
             blocks = rng.sample(blocks, 12)
         for b in blocks:
             run("crop", base, how, b)
-        for _ in range(3):
-            sel = [(rng.randint(0, S[0] - 1), rng.randint(0, S[1] - 1)) for _ in range(rng.randint(1, 4))]
-            run("clip", base, how, sel)
+        for q in range(4):
+            lo = (rng.randint(0, S[0] - 1) if q % 2 else min(1, S[0] - 1), rng.randint(0, S[1] - 1) if q % 2 else min(1, S[1] - 1))
+            sel = [(rng.randint(lo[0], S[0] - 1), rng.randint(lo[1], S[1] - 1)) for _ in range(rng.randint(1, 4))]
+            form = SEL_FORMS[(len(sel) + q + S[0] + S[1]) % len(SEL_FORMS)]
+            run("clip", base, how, sel, form)
+            if q == 0:
+                blk = rng.choice(blocks) if blocks else ((0, 1), (0, 1))
+                run("no_mutation", base, how, blk, sel, SEL_FORMS[(q + S[0] * 3 + S[1]) % len(SEL_FORMS)])
     for base, how in (layouts if tier != "quick" else layouts[::4]):
         run("geoboxtiles", base, how)
     # large sizes: tile counts beyond float precision, offsets beyond int32
@@ -1149,14 +1321,21 @@ def run(out, tier, scratch):
     ]
     import traceback
 
+    runner = make_runner(out)
+
     def correspondence(name, gen, req, shard, tag):
-        """a crash of the implementation inside the generator is a broken obligation, and the search still runs"""
+        """a crash of the implementation inside the generator is a broken obligation, and the search still runs;
+        an input on which model and implementation disagree is judged by the property predicate as well, so that the
+        disagreement itself becomes the concrete replay when it is a violation"""
         try:
-            cases = gen(out, tier)
+            judges = {}
+            cases = gen(out, tier, judges)
             fails, _ = core.coq_eval_failures(req, "case", "check", cases, scratch, shard=shard, tag=tag)
             detail = ""
             if fails:
                 detail = "model and implementation differ on: " + " | ".join(cases[i] for i in fails[:4])
+                for i in [i for i in fails if i in judges][:40]:
+                    runner(*judges[i])
             out.oblige(name, "correspondence", not fails, detail)
         except core.ModelEvalError as e:
             out.oblige(name, "correspondence", False, "model evaluation failed: " + e.log[-1500:])
@@ -1166,7 +1345,7 @@ def run(out, tier, scratch):
     correspondence("correspondence:Model.Tiles vs odc.geo.roi Tiles/VariableSizedTiles/clip_tiles + GeoboxTiles",
                    gen_tiles_cases, REQ_T, 400, "tiles")
     correspondence("correspondence:Model.Blocks vs odc.geo._blocks.BlockAssembler", gen_block_cases, REQ_B, 150, "blocks")
-    search(out, tier)
+    search(out, tier, runner)
 
 
 def replay(rp) -> int:
